@@ -17,6 +17,10 @@ KINDS = ["sleep", "take", "give", "select", "selectg", "read", "chunk", "write",
 TIMEOUT_OK = {"read", "chunk", "write", "accept"}
 
 
+def r_bad(i):
+    return ["-2", "-1", ":nope", "1.5", "0x7fffffff"][i % 5] if i % 5 != 4 else "-3"
+
+
 class C07(Driver):
     prop = "C07"
     level = "exploration"
@@ -58,7 +62,7 @@ class C07(Driver):
             if kind in ("read", "chunk"):
                 # another fiber already waits to read this stream: the operation is refused at once, and whatever
                 # it armed before (its timeout) must go with it
-                ends += ["refused"]
+                ends += ["refused", "badarg"]
             if kind not in ("gather", "accept"):
                 # the wait is issued under a C -> Janet callback: its suspension is coerced to an error at once,
                 # whatever it registered (timer, channel entry, listener, process/thread wait) is abandoned
@@ -78,7 +82,7 @@ class C07(Driver):
                 st["late"] = 1
                 if r.random() < 0.4:
                     st["via_label"] = 1     # the body leaves through a user signal (return to a label), not by returning
-            if end in ("timeout", "refused"):
+            if end in ("timeout", "refused", "badarg"):
                 st["timeout"] = dur
             if kind in ("read", "chunk"):
                 st["n"] = r.choice([1, 5, 64]) if kind == "read" else r.choice([4, 16])
@@ -136,7 +140,7 @@ class C07(Driver):
                 # abandoned takers queued on this step's channel before the victim gets there
                 st["prestale"] = [r.choice(["cancel", "select"]) for _ in range(r.randint(1, 3))]
             steps.append(st)
-            t += 0 if end in ("cframe", "refused") else dur
+            t += 0 if end in ("cframe", "refused", "badarg") else dur
         p = {}
         if r.random() < 0.5:
             for k in ("eintr_r", "eagain_r", "eagain_w", "short_r", "epoll_eintr", "epoll_delay", "epoll_reorder", "clock_jump"):
@@ -200,6 +204,9 @@ class C07(Driver):
             if k == "selectg":
                 return "(let [r (ev/select [(CH [%d 0]) %d] (CH [%d 1]))] [(r 0) (cid (r 1)) (get r 2)])" % (i, i * 1000 + 7, i)
             to = " @\"\" %s" % (st["timeout"] / 1000.0) if "timeout" in st else ""
+            if st["end"] == "badarg":
+                # invalid size, valid timeout: the call raises before it waits, and must not leave its timeout armed
+                return "(ev/%s (P [%d :r]) %s%s)" % (k, i, r_bad(i), to)
             # (in a "refused" plan the fiber that occupies the stream may have consumed the first byte before a late
             # victim gets there: the victim's bytes then start at offset 1)
             mt = "(sim/match %d 0 b)" % (50 + i) if st["end"] != "refused" else "(max (sim/match %d 0 b) (sim/match %d 1 b))" % (50 + i, 50 + i)
@@ -394,6 +401,8 @@ class C07(Driver):
                 ok = "timeout" in st and dt >= (st["timeout"] - 1) * 1000000
                 why = "this wait has no timeout" if "timeout" not in st else "timeout fired early"
             elif st["end"] == "refused" and cls == "error" and "already waiting" in payload:
+                ok = True
+            elif st["end"] == "badarg" and cls == "error":
                 ok = True
             elif st["end"] == "cframe" and cls == "error" and ("coerced from await" in payload or
                                                                  ("channel inside janet_call" in payload and kind in ("take", "give", "select", "selectg"))):
